@@ -170,6 +170,69 @@ def h_dispatch(n: int, k0: int, k1: int, k2: int) -> int:
     return 1 if ok else 0
 
 
+# ------------------------------------------------------------------ C03.image: cue text + bin file through the real entry points
+def h_image(n: int, d0: int, d1: int, d2: int, pre0: int, tail: int, titled: int) -> int:
+    """
+    pre: 1 <= n <= 3 and 0 <= d0 <= 2 and 1 <= d1 <= 3 and 1 <= d2 <= 3 and 0 <= pre0 <= 1 and 0 <= tail <= 4 and 0 <= titled <= 1
+    post: _ == 1
+    """
+    CNT[0] += 1
+    from vf.util import conc, untraced
+    n, d0, d1, d2, pre0, tail, titled = conc(n, 1, 3), conc(d0, 0, 2), conc(d1, 1, 3), conc(d2, 1, 3), conc(pre0, 0, 1), conc(tail, 0, 4), conc(titled, 0, 1)
+    with untraced():
+        import os
+        import shutil
+        import struct
+        import tempfile
+        from vf.props import c16
+        F = [d0, d0 + d1, d0 + d1 + d2][:n]                      # first-index sector of each track
+        binlen = 2352 * (F[-1] + 2) + (0, 1, 2, 3, 1177)[tail]
+        data = bytes((i * 7 + (i >> 8) * 13) & 0xFF for i in range(binlen))
+        cue = ['FILE "disc.bin" BINARY']
+        for t in range(n):
+            cue.append("  TRACK %02d AUDIO" % (t + 1))
+            if titled:
+                cue.append('    TITLE "Song %d"' % (t + 1))
+            cue.append("    INDEX %02d %02d:%02d:%02d" % (0 if (pre0 and t == 1) else 1, 0, F[t] // 75, F[t] % 75))
+            if pre0 and t == 1:
+                cue.append("    INDEX 01 %02d:%02d:%02d" % (0, (F[t] + 1) // 75, (F[t] + 1) % 75))
+        d = tempfile.mkdtemp(prefix="vf_c03_")
+        try:
+            with open(os.path.join(d, "disc.bin"), "wb") as fh:
+                fh.write(data)
+            with open(os.path.join(d, "disc.cue"), "w") as fh:
+                fh.write("\n".join(cue) + "\n")
+            image = actions.determine_image_type(os.path.join(d, "disc.cue"))
+            res = c16._do(image, ("export", None))
+        finally:
+            shutil.rmtree(d, ignore_errors=True)
+        got = dict(res[1])
+        names = [("Song %d" % (t + 1)) if titled else ("Untitled Track %d" % (t + 1)) for t in range(n)]
+        if sorted(got) != sorted("out/%s.wav" % nm for nm in names):
+            return 0
+        cat = b""
+        for t in range(n):
+            lo = 2352 * F[t]
+            hi = 2352 * F[t + 1] if t + 1 < n else binlen
+            want = data[lo:hi]
+            want = want[:len(want) - len(want) % 4]
+            w = got["out/%s.wav" % names[t]]
+            if w[:4] != b"RIFF" or struct.unpack("<I", w[4:8])[0] != len(w) - 8:
+                return 0
+            k = w.find(b"data")
+            pcm = w[k + 8:k + 8 + struct.unpack("<I", w[k + 4:k + 8])[0]]
+            fmt = w.find(b"fmt ")
+            af, ch, sr, br, ba, bits = struct.unpack("<HHIIHH", w[fmt + 8:fmt + 24])
+            if (af, ch, sr, bits) != (1, 2, 44100, 16) or pcm != want:
+                return 0
+            cat += pcm
+        # concatenating the tracks reproduces the bin from the first track onward (up to the final partial frame)
+        tot = data[2352 * F[0]:]
+        if cat != tot[:len(tot) - len(tot) % 4]:
+            return 0
+    return 1
+
+
 RUNS = ["smpl_extract.cuesheet:CueSheetIndex.get_total_audio_frames", "smpl_extract.cdda.image:CompactDiskAudioImageAdapter.from_bin_cue",
         "smpl_extract.cdda.image:AudioTrack.to_generalized", "smpl_extract.actions:attempt_parse_cue_sheet",
         "smpl_extract.generalized.wav:WavSampleAdapter._encode", "smpl_extract.transcoder:make_transcoder",
@@ -205,6 +268,9 @@ def obligations(tier, seed):
     for o in c17.obligations(tier, seed):
         if o["name"] == "C17.meaning":
             obs.append(dict(o, name="C03.parse"))       # text -> tracks: first index of a track = its first INDEX line, in file order
+    for n in (1, 2, 3):
+        obs.append(_ob(f"C03.image/n={n}", "h_image", [f"n == {n}"], T, "index positions, INDEX 00 pregap line, TITLE presence, stray tail bytes",
+                       "real cue text + bin file through determine_image_type and export_samples_to_wav; concrete per path", stubs=["temporary files", "in-memory export"]))
     obs.append(_ob("C03.dispatch", "h_dispatch", [], T, "number of tracks and mode of each (AUDIO/audio/MODE1/MODE2)", "<= 3 tracks",
                    stubs=["open/determine_image_type/from_bin_cue recorders"]))
     return obs
